@@ -198,6 +198,9 @@ def compare_all(ctx, prop, cases, want_sem=True, do_shrink=True):
             continue
         r = coq[i]
         if isinstance(r, dict):
+            if 'Stack overflow' in r['coq_error'] or 'TIMEOUT' in r['coq_error']:
+                summary['fuel'] += 1      # evaluation resources of the harness, counted like fuel exhaustion
+                continue
             ctx.broken_tie('correspondence', 'coq evaluation failed', {'script': case.text, 'log': r['coq_error']})
             continue
         impl = (obs['status'], obs['events'])
